@@ -95,7 +95,8 @@ fn add_types_prefix(ts_type: &str) -> String {
         if matches!(base_type, "string" | "number" | "boolean" | "void") {
             return ts_type.to_string();
         }
-        return format!("types.{}[]", base_type);
+        // The element type may itself be an array, a record, a tuple or a union
+        return format!("{}[]", add_types_prefix(base_type));
     }
 
     // Handle Record/Map - they contain types but the structure itself doesn't need prefix
